@@ -32,6 +32,9 @@ OF THIS SOFTWARE, EVEN IF ADVISED OF THE POSSIBILITY OF SUCH DAMAGE.
 #include <cstring>
 #include <vector>
 #include "common.hpp"
+#ifdef RANDOMX_VERIF
+#include "verif_hooks.hpp"
+#endif
 
 namespace randomx {
 
@@ -44,6 +47,9 @@ namespace randomx {
 	using InstructionGeneratorX86 = void(JitCompilerX86::*)(Instruction&, int);
 
 	class JitCompilerX86 {
+#ifdef RANDOMX_VERIF
+		friend struct randomx_verif::Access;
+#endif
 	public:
 		JitCompilerX86();
 		~JitCompilerX86();
